@@ -37,6 +37,7 @@ type specEnv struct {
 	eng     *Engine
 	fr      *Frame // frame in which @patterns and source names resolve (may be nil)
 	fn      *ssa.Function
+	resSig  *types.Tuple
 	st      *State
 	old     *State
 	vars    map[string]binding
@@ -53,6 +54,13 @@ type specEnv struct {
 }
 
 type specErr string
+
+func (env *specEnv) resTuple() *types.Tuple {
+	if env.fn != nil {
+		return env.fn.Signature.Results()
+	}
+	return env.resSig
+}
 
 func (env *specEnv) fail(f string, a ...any) {
 	panic(specErr(fmt.Sprintf(f, a...)))
@@ -287,18 +295,18 @@ func (env *specEnv) lookupIdent(name string) (sval, bool) {
 			}
 		}
 	}
-	if name == "result" && len(env.results) >= 1 && env.fn != nil {
+	if name == "result" && len(env.results) >= 1 && env.resTuple() != nil {
 		if len(env.results) == 1 {
-			return sval{t: env.results[0], typ: env.fn.Signature.Results().At(0).Type()}, true
+			return sval{t: env.results[0], typ: env.resTuple().At(0).Type()}, true
 		}
 		var tup []sval
 		for i, r := range env.results {
-			tup = append(tup, sval{t: r, typ: env.fn.Signature.Results().At(i).Type()})
+			tup = append(tup, sval{t: r, typ: env.resTuple().At(i).Type()})
 		}
-		return sval{tup: tup, typ: env.fn.Signature.Results()}, true
+		return sval{tup: tup, typ: env.resTuple()}, true
 	}
-	if env.fn != nil && len(env.results) > 0 {
-		rs := env.fn.Signature.Results()
+	if env.resTuple() != nil && len(env.results) > 0 {
+		rs := env.resTuple()
 		for i := 0; i < rs.Len(); i++ {
 			if rs.At(i).Name() == name && name != "" && name != "_" {
 				return sval{t: env.results[i], typ: rs.At(i).Type()}, true
@@ -1157,6 +1165,20 @@ func (env *specEnv) evalCall(c *ECall) sval {
 				oa = env.old.alloc
 			}
 			return sval{t: fmt.Sprintf("(and (not (= %s nil)) (is_obj %s) (>= (rootid %s) %s) (< (rootid %s) %s))", l, l, l, oa, l, env.st.alloc), typ: tBool}
+		case "cached", "cachedVal":
+			x := env.eval(c.Args[0])
+			l := env.rv(x)
+			if pt, ok := x.typ.Underlying().(*types.Pointer); ok {
+				if st, ok := pt.Elem().Underlying().(*types.Struct); ok && st.NumFields() > 0 && st.Field(0).Name() == "cache" && st.Field(0).Embedded() {
+					l = eng.loadField(env.st, l, pt.Elem(), 0)
+				}
+			}
+			k := env.eval(c.Args[1])
+			h, v := eng.goCacheComps()
+			if id.Name == "cached" {
+				return sval{t: fmt.Sprintf("(select (select %s %s) %s)", eng.get(env.st, h), l, env.rv(k)), typ: tBool}
+			}
+			return sval{t: fmt.Sprintf("(select (select %s %s) %s)", eng.get(env.st, v), l, env.rv(k)), typ: types.NewInterfaceType(nil, nil)}
 		case "allocated":
 			x := env.eval(c.Args[0])
 			l := env.rv(x)
